@@ -196,6 +196,10 @@ def cases(c):
                     for crit in [None] + CRITERIA:
                         out.append({'N': N, 'order': order, 'cplx': cplx, 'kind': 'noise', 'crit': crit,
                                     'cont': 'array', 'directed': crit is None})
+    # witness of the open finding F18 (AICc / AKICc divide by N-k-2 = 0 at order N-2)
+    for crit in ('AICc', 'AKICc'):
+        out.append({'N': 4, 'order': 2, 'cplx': 0, 'kind': 'literal', 'values': [1, -0.9, 0.8, -0.7], 'crit': crit,
+                    'cont': 'array', 'directed': True})
     for i in range(1000 if c.tier == 'quick' else 54000):
         N = int(rng.integers(4, 201 if i % 3 == 0 else 48))
         kind = gen.pick(rng, KINDS)
@@ -212,6 +216,8 @@ def cases(c):
 
 
 def make_x(c, d):
+    if d['kind'] == 'literal':
+        return np.array(d['values'], dtype=float)
     x = gen.data({'kind': d['kind'], 'N': d['N'], 'cplx': bool(d['cplx']), 'amp': d.get('amp', 9)}, c.rng(d, 'x'))
     if d['kind'] == 'int' and not d['cplx'] and d.get('idt'):
         x = x.astype(d['idt'])
